@@ -334,6 +334,24 @@ for _nb, _tier, _to in ((4, "quick", 600), (6, "thorough", 3000)):
         assumptions=["byte values concrete (the code only compares and maps them through the symbol map)"],
         outside=["alphabets above three byte values (deeper move-to-front positions), columns above %d bytes" % _nb])
 
+# ------------------------------------------------------------------------------- C10: speculative block discovery (expand.c steps)
+add("detach_pos", "h_expand.c", "h_detach_pos", {"C10": "quick", "C09": "quick"}, cbmc=["--unwind", "20"], backend="kissat", timeout=300, mem_gb=6,
+    functions=["src/expand.c:detach"], witnesses=["detached", "more_than_a_word_buffered"],
+    bounds="input buffers of 1..4 words, block offset 0..8 words, any word position in a block of 1..4 words, 0..63 buffered bits (complete for the position arithmetic up to these sizes)",
+    assumptions=EXP_ASM)
+add("scan_candidate", "h_expand.c", "h_scan_candidate", {"C10": "quick"}, cbmc=["--unwind", "20"], backend="kissat", timeout=300, mem_gb=6,
+    functions=["src/expand.c:do_scan", "src/expand.c:can_scan", "src/expand.c:attach", "src/expand.c:detach", "src/expand.c:on_input_avail", "src/expand.c:init"],
+    witnesses=["nothing_found", "candidate_not_ahead_of_parser", "candidate_ahead_of_parser"],
+    bounds="one input block of 4 words; parser position and candidate position (any bit position inside the block) symbolic; scan() stub reports a candidate at the chosen position or none",
+    assumptions=EXP_ASM + ["scan() stub may report a candidate at ANY position (also spurious ones)"])
+for _nu, _tier, _to in ((1, "quick", 900), (2, "thorough", 3000), (3, "thorough", 3000)):
+  add("parse_match_u%d" % _nu, "h_expand.c", "h_parse_match", {"C10": _tier}, defines=["-DREAL_HEAP", "-DNU=%d" % _nu], extra_src=[("process.c", ["-include", "/verif/harness/proc_rename.h"])],
+    cbmc=["--unwind", "20"], backend="kissat", timeout=_to, mem_gb=8,
+    functions=["src/expand.c:do_parse (block found)", "src/expand.c:can_parse", "src/expand.c:attach", "src/expand.c:detach", "src/expand.c:advance", "src/process.c:up_heap", "src/process.c:down_heap"],
+    witnesses=["stale_candidate_discarded", "candidate_confirmed", "block_only_the_parser_found"],
+    bounds="0..%d candidates on record at arbitrary distinct bit positions of a 4-word input block, each finished or unfinished; the parser finds a block header ending at an arbitrary bit position" % _nu,
+    assumptions=["codec entry points replaced by contract stubs (parse() stub: block header found at the chosen position)", "scheduler lock and I/O threads stubbed; REAL heap helpers of process.c (the confirmation logic depends on the queue order)"])
+
 # ===== keep this section LAST: it derives obligations from everything registered above =====
 # ------------------------------------------------------------------------------- C08: the same harnesses with CBMC's UB checks on
 import copy as _copy
